@@ -116,6 +116,7 @@ func chainsMode(scn, out string) {
 			TL     timeline `json:"tl"`
 			DB     [][]int  `json:"db"`
 			Remote [][]int  `json:"remote"`
+			QV     int      `json:"qv"`
 		}
 		if err := json.Unmarshal(line, &c); err != nil {
 			vt.Fatal("scenario line %d: %v", n, err)
@@ -155,7 +156,11 @@ func chainsMode(scn, out string) {
 				f.chains = append(f.chains, cwB.Chain(ch))
 			}
 			prov := trust.FetchingProvider{DB: sq, Recurser: trust.LocalOnlyRecurser{}, Fetcher: f, Router: fixedRouter{}}
-			got, err := prov.GetChains(ctx, trust.ChainQuery{IA: pki.ChainIA(2)})
+			q := trust.ChainQuery{IA: pki.ChainIA(2)}
+			if c.QV != 0 { // chains valid at another instant are asked for
+				q.Validity = cppki.Validity{NotBefore: cwB.Clk.T(c.QV), NotAfter: cwB.Clk.T(c.QV)}
+			}
+			got, err := prov.GetChains(ctx, q)
 			ret := [][]int{}
 			for _, ch := range got {
 				ret = append(ret, cwB.Ident(ch))
@@ -166,7 +171,7 @@ func chainsMode(scn, out string) {
 			if c.Remote == nil {
 				c.Remote = [][]int{}
 			}
-			w.Emit(vt.M{"ev": "provider", "tl": c.TL, "db": c.DB, "remote": c.Remote, "ret": ret,
+			w.Emit(vt.M{"ev": "provider", "tl": c.TL, "db": c.DB, "remote": c.Remote, "qv": c.QV, "ret": ret,
 				"errnil": b2i(err == nil), "asked": f.asked})
 			sq.Close()
 		case "history":
